@@ -156,7 +156,7 @@ def check_property(pid, tier, jobs, seed=0, meta=None, verbose=False, budget_s=N
     # long jobs first (stable heuristics: declared timeout), ties shuffled by seed
     rnd.shuffle(order)
     jobs = [jobs[i] for i in sorted(order, key=lambda i: -jobs[i].timeout_s)]
-    results = run_jobs(jobs, verbose=verbose, total_budget_s=budget_s or float(os.environ.get('VERIF_BUDGET', 0) or (420 if tier == 'quick' else 3600)))
+    results = run_jobs(jobs, verbose=verbose, total_budget_s=budget_s or float(os.environ.get('VERIF_BUDGET', 0) or (420 if tier == 'quick' else 1500)))
     known = load_known()
     violations, known_hits, inconclusive = [], [], []
     tot = dict(paths=0, forks=0, checks=0, solver_s=0.0, obligations=0, discharged=0, sat=0, unknown=0, xval_ok=0, xval_inexact=0, xval_skipped=0,
